@@ -132,6 +132,7 @@ type accAn struct {
 	depth   int
 	dynamic map[string]bool
 	retMemo map[*ssa.Function]string
+	effMemo map[string]*lockEff
 }
 
 func isLib(path string) bool { return strings.HasPrefix(path, mod+"/pkg/") }
@@ -765,6 +766,29 @@ func (an *accAn) instr(f *ssa.Function, c *accCtx, ins ssa.Instruction, held map
 			return
 		}
 		an.call(f, c, ins, cc, held, after, emit)
+		// what the callee does to the locks: a lock helper returns with the lock taken, an unlock helper releases it
+		if sc := cc.StaticCallee(); sc != nil && an.libPkgs[sc.Pkg] != "" && len(sc.Blocks) > 0 {
+			bind := map[ssa.Value]string{}
+			for i, a := range cc.Args {
+				if i < len(sc.Params) {
+					if cell := an.cellOf(a, c, 0); cell != "" {
+						bind[sc.Params[i]] = cell
+					}
+				}
+			}
+			eff := an.lockEffect(sc, bind, 0)
+			if eff.killAll {
+				for k := range held {
+					delete(held, k)
+				}
+			}
+			for k := range eff.kill {
+				delete(held, k)
+			}
+			for k, m := range eff.gen {
+				held[k] = m
+			}
+		}
 		if isOnceDo(cc) && len(cc.Args) == 2 {
 			if cell := an.cellOf(cc.Args[0], c, 0); cell != "" {
 				after[cell] = true
@@ -931,4 +955,194 @@ func (an *accAn) bindClosure(v ssa.Value, fn *ssa.Function, c *accCtx, nc *accCt
 			}
 		}
 	}
+}
+
+// lockEffect: what a call of f does to the set of certainly held locks, seen from the caller: kill = locks it may
+// release on some path, gen = locks it certainly holds when it returns (taken on every path and neither released nor
+// scheduled for release by a defer).  A forward must-analysis over f's lock operations and its library callees'
+// effects; recursion and the depth limit answer "may release anything, certainly holds nothing".
+type lockEff struct {
+	gen     map[string]string
+	kill    map[string]bool
+	killAll bool
+}
+
+func (an *accAn) lockEffect(f *ssa.Function, bind map[ssa.Value]string, depth int) lockEff {
+	if an.effMemo == nil {
+		an.effMemo = map[string]*lockEff{}
+	}
+	var b []string
+	for v, cell := range bind {
+		b = append(b, v.Name()+"="+cell)
+	}
+	sort.Strings(b)
+	key := fmt.Sprintf("%p|%s", f, strings.Join(b, ","))
+	if e, ok := an.effMemo[key]; ok {
+		if e == nil {
+			return lockEff{killAll: true}
+		}
+		return *e
+	}
+	if depth > 8 {
+		return lockEff{killAll: true}
+	}
+	an.effMemo[key] = nil // in progress
+	c := &accCtx{held: map[string]string{}, after: map[string]bool{}, bind: bind}
+	type st struct {
+		gen     map[string]string
+		kill    map[string]bool
+		killAll bool
+		top     bool
+	}
+	cp := func(x st) st {
+		r := st{gen: copyHeld(x.gen), kill: copySet(x.kill), killAll: x.killAll, top: x.top}
+		if r.gen == nil {
+			r.gen = map[string]string{}
+		}
+		if r.kill == nil {
+			r.kill = map[string]bool{}
+		}
+		return r
+	}
+	join := func(a, b st) st {
+		if a.top {
+			return cp(b)
+		}
+		if b.top {
+			return cp(a)
+		}
+		r := st{gen: map[string]string{}, kill: copySet(a.kill), killAll: a.killAll || b.killAll}
+		for k, m := range a.gen {
+			if m2, ok := b.gen[k]; ok {
+				if m == "W" && m2 == "W" {
+					r.gen[k] = "W"
+				} else {
+					r.gen[k] = "R"
+				}
+			}
+		}
+		for k := range b.kill {
+			r.kill[k] = true
+		}
+		return r
+	}
+	same := func(a, b st) bool {
+		return a.top == b.top && a.killAll == b.killAll && heldList(a.gen) == heldList(b.gen) && setList(a.kill) == setList(b.kill)
+	}
+	deferred := map[string]bool{}
+	for _, blk := range f.Blocks {
+		for _, ins := range blk.Instrs {
+			if d, ok := ins.(*ssa.Defer); ok {
+				if m, ok := lockMethod(d.Common()); ok && (m == "Unlock" || m == "RUnlock") && len(d.Common().Args) > 0 {
+					if cell := an.cellOf(d.Common().Args[0], c, 0); cell != "" {
+						deferred[cell] = true
+					}
+				}
+			}
+		}
+	}
+	in := make([]st, len(f.Blocks))
+	outS := make([]st, len(f.Blocks))
+	for i := range in {
+		in[i], outS[i] = st{top: true}, st{top: true}
+	}
+	in[0] = st{gen: map[string]string{}, kill: map[string]bool{}}
+	exit := st{top: true}
+	transfer := func(blk *ssa.BasicBlock, x st) st {
+		x = cp(x)
+		x.top = false
+		for _, ins := range blk.Instrs {
+			switch y := ins.(type) {
+			case *ssa.Call:
+				cc := y.Common()
+				if m, ok := lockMethod(cc); ok && len(cc.Args) > 0 {
+					cell := an.cellOf(cc.Args[0], c, 0)
+					if cell == "" {
+						continue
+					}
+					switch m {
+					case "Lock":
+						x.gen[cell] = "W"
+					case "RLock":
+						if x.gen[cell] != "W" {
+							x.gen[cell] = "R"
+						}
+					case "Unlock", "RUnlock":
+						delete(x.gen, cell)
+						x.kill[cell] = true
+					}
+					continue
+				}
+				if sc := cc.StaticCallee(); sc != nil && an.libPkgs[sc.Pkg] != "" && len(sc.Blocks) > 0 {
+					nb := map[ssa.Value]string{}
+					for i, a := range cc.Args {
+						if i < len(sc.Params) {
+							if cell := an.cellOf(a, c, 0); cell != "" {
+								nb[sc.Params[i]] = cell
+							}
+						}
+					}
+					e := an.lockEffect(sc, nb, depth+1)
+					if e.killAll {
+						x.killAll = true
+						x.gen = map[string]string{}
+					}
+					for k := range e.kill {
+						delete(x.gen, k)
+						x.kill[k] = true
+					}
+					for k, m := range e.gen {
+						x.gen[k] = m
+					}
+				} else if cc.StaticCallee() == nil && !cc.IsInvoke() {
+					if _, isBuiltin := cc.Value.(*ssa.Builtin); !isBuiltin {
+						// a function value: it may be anything of the library, also an unlock helper
+						x.killAll = true
+						x.gen = map[string]string{}
+					}
+				}
+			case *ssa.Return:
+				r := cp(x)
+				for cell := range deferred {
+					delete(r.gen, cell)
+					r.kill[cell] = true
+				}
+				exit = join(exit, r)
+			}
+		}
+		return x
+	}
+	for iter := 0; iter < 20; iter++ {
+		changed := false
+		exit = st{top: true}
+		for i, blk := range f.Blocks {
+			if i > 0 {
+				x := st{top: true}
+				for _, p := range blk.Preds {
+					x = join(x, outS[p.Index])
+				}
+				if !same(x, in[i]) {
+					in[i] = x
+					changed = true
+				}
+			}
+			if in[i].top {
+				continue
+			}
+			o := transfer(blk, in[i])
+			if !same(o, outS[i]) {
+				outS[i] = o
+				changed = true
+			}
+		}
+		if !changed {
+			break
+		}
+	}
+	res := lockEff{gen: map[string]string{}, kill: map[string]bool{}}
+	if !exit.top {
+		res = lockEff{gen: exit.gen, kill: exit.kill, killAll: exit.killAll}
+	}
+	an.effMemo[key] = &res
+	return res
 }
